@@ -383,6 +383,15 @@ pub(crate) struct LogReader {
     processed (e.g. during database recoveries).
     */
     current_block_offset: usize,
+
+    /**
+    If true, a physical record that cannot be parsed (e.g. because of a checksum mismatch) is
+    returned as an error instead of being skipped.
+
+    Skipping damaged records is only acceptable for the write-ahead log. A manifest with a damaged
+    record must not be silently recovered without the changes of that record.
+    */
+    report_damaged_records: bool,
 }
 
 /// Public methods
@@ -408,6 +417,7 @@ impl LogReader {
             initial_offset: initial_block_offset,
             current_cursor_position: initial_block_offset,
             current_block_offset: 0,
+            report_damaged_records: false,
         };
 
         Ok(reader)
@@ -443,6 +453,10 @@ impl LogReader {
                         ErrorKind::UnexpectedEof => return Ok((vec![], true)),
                         _ => return Err(physical_read_err),
                     }
+                }
+
+                if self.report_damaged_records {
+                    return Err(physical_read_err);
                 }
 
                 // The fragment was dropped so a record that was being assembled is incomplete.
@@ -492,6 +506,12 @@ impl LogReader {
     */
     pub(crate) fn is_fully_consumed(&self) -> LogIOResult<bool> {
         Ok((self.current_cursor_position as u64) >= self.len()?)
+    }
+
+    /// Make the reader return an error for damaged records instead of skipping them.
+    pub(crate) fn report_damaged_records(mut self) -> Self {
+        self.report_damaged_records = true;
+        self
     }
 }
 
